@@ -178,6 +178,10 @@ pub const TEMPLATES: &[&str] = &[
     "and_b(pk(@0),a:or_i(sha256(#s1),pk(@2)))",
     "and_v(v:pk(@0),or_d(pk(@1),and_v(v:sha256(#s0),after(500000001))))",
     "thresh(2,pk(@0),a:or_i(sha256(#s0),pk(@1)),a:pk(@2))",
+    "or_d(multi(1,@0,@1),multi(1,@2,@3))",
+    "thresh(1,multi(1,@0,@1),a:multi(1,@2,@3))",
+    "and_v(v:pk(@0),or_d(pk(@1),older(10)))",
+    "or_i(and_v(v:pk(@0),after(9)),and_v(v:pk(@1),after(500000001)))",
 ];
 
 fn mk_tmpl<Ctx: ScriptContext>(w: &World, t: usize, tap: bool, sane: bool) -> Option<Miniscript<Key, Ctx>> {
@@ -595,6 +599,13 @@ fn emit_case(w: &World, c: &Case, env: &TxEnv, id: u64, sane: bool, rng: &mut Rn
     for (d, sbytes) in c.ms_dump.iter() {
         writeln!(out, "MS {}", d).unwrap();
         writeln!(out, "SCRIPT {}", hex(sbytes)).unwrap();
+        if c.kind == "tr" {
+            let lh = bitcoin::taproot::TapLeafHash::from_script(
+                bitcoin::Script::from_bytes(sbytes),
+                bitcoin::taproot::LeafVersion::TapScript,
+            );
+            writeln!(out, "LEAFH {}", hex(lh.as_byte_array())).unwrap();
+        }
     }
     for e in c.exts.iter() {
         writeln!(out, "EXT {}", e).unwrap();
